@@ -268,6 +268,16 @@ class DataHeader(BitsInterface, BytesInterface):
 
     @staticmethod
     def from_bits(bits: bitarray) -> "DataHeader":
+        header: DataHeader = DataHeader.fields_from_bits(bits)
+        if len(bits) >= 96 and ba2int(bits[80:96]) > 0:
+            # check the bits as received, the fields might not re-serialize to the same bits (reserved values are folded)
+            header.crc_ok = CRC16.check(
+                bits[:80].tobytes(), ba2int(bits[80:96]), CrcMasks.DataHeader
+            )
+        return header
+
+    @staticmethod
+    def fields_from_bits(bits: bitarray) -> "DataHeader":
         dpf: DataPacketFormats = DataPacketFormats.from_bits(bits[4:8])
         if dpf == DataPacketFormats.DataPacketConfirmed:
             return DataHeader(
